@@ -12,6 +12,8 @@ THEOREMS = CT.THEOREMS_C12 + [
 ] + ST_.THEOREMS_C12_STORAGE + CH_.THEOREMS_C12_CHP
 from ..comp import linked as _LK
 THEOREMS = THEOREMS + [t for t in _LK.THEOREMS_LINKED if t[1].split('.')[-1] in ['linked_unit_change']]
+from ..comp import unitkeys as UK
+THEOREMS = THEOREMS + UK.THEOREMS_C12_KEYS
 PARTIAL = ['unit_change is proved builder by builder: contract / transport / multi-commodity (rates not given as price keys), Storage (all options), CHP / Plant incl. ramp profiles, min-load costs and costs_only (rates not given as price keys; the constructor guard on declared histories must be stable under the change: it is evaluated on raw values, known finding F-06d); for price-key rates and for LinkedAsset the statement rests on the metamorphic oracles', 'the unit_change theorems are statements over exact rationals; that the floating-point arithmetic of the code (np.cumsum of step lengths against max_store_duration, ceil of duration / step) does not make the result depend on the unit is NOT proved: it rests on the stream non-dyadic unit change (durations in whole grid steps; findings F-12c, F-12d, F-12e were of this kind)']
 from ..comp import elapsed as EL_
 COMPONENTS = ['contract/transport builders under unit pairs (dt scaling)', 'independent reference LP (harness/comp/textbook.py) on zone-aware daily grids across daylight-saving switches: costs and limits billed by elapsed time']
@@ -129,6 +131,10 @@ def scenarios(seed, tier):
     _rl = random.Random(seed * 15485863 + 121)
     for i in range(60 if tier == 'quick' else 400):
         yield 'lk%d' % i, {'_stream': 'linked', 'case': LK.gen_case(_rl.__class__(_rl.getrandbits(48)), tmax=6)}
+    # unit change with rates given as KEYS into the price data (second price table as the theorems EAO.C12K state): comp/unitkeys.py
+    _ruk = random.Random(seed * 15485863 + 122)
+    for i in range(100 if tier == 'quick' else 700):
+        yield 'uk%d' % i, {'_stream': 'unitkeys', 'case': UK.gen_case(random.Random(_ruk.getrandbits(48)))}
 
 
 def _split_cases(seed, n):
@@ -575,6 +581,11 @@ def run_nondyadic(c):
 
 
 def run_case(c, drv):
+    if isinstance(c, dict) and c.get('_stream') == 'unitkeys':
+        rec = UK.run_case(c['case'], drv)
+        return {'evaluated': 1, 'nontrivial': bool(rec.get('nontrivial')), 'features': ['stream:unitkeys'] + list(rec.get('features', [])),
+                'disagreements': [d if isinstance(d, dict) else {'component': 'unit change with keys', 'detail': d} for d in rec['disagreements']],
+                'violations': rec['violations']}
     if isinstance(c, dict) and c.get('_stream') == 'linked':
         from ..comp import linked as LK
         r = LK.run_case(c['case'], drv, with_oracle=False)      # the tie of the linked model; its documented-behaviour oracle states no property of this list
